@@ -42,7 +42,7 @@ int main(int argc, char **argv)
     int limit = argc > 1 ? atoi(argv[1]) : 20;
     signal(SIGALRM, on_alarm);
     std::string line;
-    std::vector<double> B, H, X;
+    std::vector<double> B, H, X, D;
     int lamtype = 0;
     double lamfill = 1.;
     while (std::getline(std::cin, line)) {
@@ -53,12 +53,13 @@ int main(int argc, char **argv)
         while (is >> t) a.push_back(strtod(t.c_str(), nullptr));
         if (cmd == "case") {
             printf("case %d\n", (int)a[0]);
-            B.clear(); H.clear(); X.clear(); lamtype = 0; lamfill = 1.;
+            B.clear(); H.clear(); X.clear(); D.clear(); lamtype = 0; lamfill = 1.;
         }
         else if (cmd == "lam") { lamtype = (int)a[0]; lamfill = a[1]; }
         else if (cmd == "B") B = a;
         else if (cmd == "H") H = a;
         else if (cmd == "sample") X.insert(X.end(), a.begin(), a.end());
+        else if (cmd == "dsample") D.insert(D.end(), a.begin(), a.end());      // pairs b1 b2
         else if (cmd == "end") {
             CMSolverMaterialProp m;
             m.BHpoints = (int)B.size();
@@ -92,6 +93,12 @@ int main(int argc, char **argv)
                 m.GetBHProps(x, v, dv);
                 printf("s");
                 pv(h.re); pv(h.im); pv(d.re); pv(d.im); pv(e); pv(ce); pv(v); pv(dv);
+                printf("\n");
+            }
+            // the post-processor's energy densities: CMMaterialProp::DoEnergy / DoCoEnergy(double,double)
+            for (size_t k = 0; k + 1 < D.size(); k += 2) {
+                printf("d");
+                pv(m.DoEnergy(D[k], D[k + 1])); pv(m.DoCoEnergy(D[k], D[k + 1]));
                 printf("\n");
             }
             printf("end\n");
